@@ -65,8 +65,8 @@ def auth_expected(kind):
             'basic1tok': [('alice', 'dG9rZW5hbGljZQ')], 'basic3mixed': [('alice', None), ('bob', 'dG9rZW5ib2I'), ('carol', None)]}[kind]
 
 
-def port_arg(form, i):
-    pub = 80 + i
+def port_arg(form, i, shared=False):
+    pub = 80 if shared else 80 + i
     if form == 'int':
         return pub, (pub, None)                        # target assigned by the reactor
     if form == 'pair':
@@ -93,8 +93,9 @@ def run_create(version, key, detach, single_hop, auth, ports_forms, entry='creat
         if bad is None:
             args = []
             want_ports = []
-            for i, f in enumerate(ports_forms):
-                a, wp = port_arg(f, i)
+            shared = bool(ports_forms) and ports_forms[0] == 'shared'
+            for i, f in enumerate(ports_forms[1:] if shared else ports_forms):
+                a, wp = port_arg(f, i, shared)
                 args.append(a)
                 want_ports.append(wp)
         else:
@@ -223,6 +224,12 @@ def run_create(version, key, detach, single_hop, auth, ports_forms, entry='creat
                     viol.append(('discarded-key-stored', 'before-completion', 'private_key is %r although discarding was requested' % (pk,)))
             if rec.fires:
                 viol.append(('completed-before-upload', feat, 'create() fired before any descriptor upload: %r' % (rec.summary(),)))
+            if auth != 'none' and key == 'discard':
+                # without the key the client cannot recognise this service's HS_DESC events: checked up to the reply only
+                errs = w.errors()
+                if errs:
+                    viol.append(('logged-error', errs[0][1], '%r' % (errs[:1],)))
+                return dict(viol=viol, obs=(line, 'after-reply-only'), log=log)
             # the descriptor upload that lets creation finish
             sim.event('HS_DESC UPLOAD %s UNKNOWN $%s somedescid' % (sid, 'AB' * 20))
             sim.event('HS_DESC UPLOADED %s UNKNOWN $%s' % (sid, 'AB' * 20))
@@ -294,6 +301,8 @@ def rec_exec(acc, key, r, replay, cost):
 def port_lists(tier):
     out = [(f,) for f in PORT_FORMS]
     out += list(itertools.product(PORT_FORMS, repeat=2))
+    # several mappings for ONE virtual port (Tor allows it)
+    out += [('shared', 'pair', 'pair'), ('shared', 'string', 'unix'), ('shared', 'int', 'pair', 'string')]
     if tier == 'thorough':
         out += list(itertools.product(PORT_FORMS, repeat=3))
     else:
@@ -306,7 +315,7 @@ def run_task(param, acc):
         _, version, key = param
         r = None
         for detach, single_hop, auth, pf in itertools.product((False, True), (False, True), AUTHS, port_lists(acc.tier)):
-            if auth != 'none' and (version != 2 or key in ('discard', 'other-version')):
+            if auth != 'none' and (version != 2 or key == 'other-version'):
                 continue        # basic auth exists for v2 services only; their HS_DESC matching needs the key (see assumptions)
             if acc.tier == 'quick' and len(pf) > 1 and auth not in ('none', 'basic3mixed'):
                 continue
@@ -351,7 +360,7 @@ def meta(tier):
              'that echoes a key despite DiscardPK. non-trivial: all' % (2 if tier == 'quick' else 3),
         bounds=dict(versions=[2, 3], keys=KEYS, auths=AUTHS, port_forms=PORT_FORMS, port_list_len=(2 if tier == 'quick' else 3)),
         assumptions=['authenticated (BasicAuth) services: version 2 only, with a real RSA key (txtorcon recognises their HS_DESC events by the '
-                     'id computed from the key); discard-key + BasicAuth is not explored',
+                     'id computed from the key); discard-key + BasicAuth is checked up to the ADD_ONION reply only',
                      'a key prefixed for the other version may be refused or sent unchanged, never altered',
                      'for version 2 with no key NEW:BEST or NEW:RSA1024 are both accepted',
                      'int ports are forwarded to the loopback port the (fake) reactor handed out, in order'])
